@@ -115,4 +115,33 @@ theorem free_laws : Laws freeCrypto where
     have := freeSign_inj h
     exact ⟨this.1.symm, this.2.symm⟩
 
+/-! ### Representations of an id (round gtcp): the code of the derived id of a short key encoding / of the SHA2-256 form -/
+
+theorem derived_short_code (c : Crypto) (kb : Bytes) (P : PeerId) (hlen : kb.length ≤ Consts.MAX_INLINE_KEY_LENGTH)
+    (hP : peerIdOfEncoding c kb = .ok P) : P.multihash.code = IDENTITY_CODE := by
+  unfold peerIdOfEncoding PeerId.fromPublicKeyProtobuf at hP
+  have hl : (toU8 kb).length ≤ Consts.MAX_INLINE_KEY_LENGTH := by simpa [toU8] using hlen
+  rw [if_pos hl] at hP
+  unfold Multihash.wrap at hP
+  split at hP
+  · rename_i mh hw
+    split at hw
+    · simp at hw
+    · simp only [Except.ok.injEq] at hw hP
+      subst hw; subst hP; rfl
+  · simp at hP
+
+theorem hashed_code (c : Crypto) (kb : Bytes) (d : PeerId) (hd : hashedIdOfEncoding c kb = some d) :
+    d.multihash.code = SHA2_256_CODE := by
+  unfold hashedIdOfEncoding Multihash.wrap at hd
+  split at hd
+  · rename_i mh hw
+    split at hw
+    · simp at hw
+    · simp only [Except.ok.injEq] at hw
+      subst hw
+      simp [PeerId.fromMultihash] at hd
+      rw [← hd]
+  · simp at hd
+
 end Litep2pVerif.Noise.Identity
